@@ -23,24 +23,34 @@ ACTIONS = ["Enter", "Leave", "Try", "Raise"]
 
 def run(rep, work, tier, seed):
     if tier == "quick":
-        mc = dict(NTasks=1, Types=["A", "B"], Vals=[1, 2], MaxDepth=3, MaxOps=4, SupKind="small", Bug="none")
-        conf = dict(NTasks=1, Types=["A", "B"], Vals=[1, 2], MaxDepth=3, MaxOps=4, SupKind="tiny", Bug="none")
+        mc = dict(NTasks=1, Types=["A", "B"], Vals=[1, 2], MaxDepth=3, MaxOps=4, SupKind="small", Prep=False, Bug="none")
+        conf = dict(NTasks=1, Types=["A", "B"], Vals=[1, 2], MaxDepth=3, MaxOps=4, SupKind="tiny", Prep=False, Bug="none")
         types = ("A", "B")
     else:
-        mc = dict(NTasks=1, Types=["A", "A2", "B"], Vals=[1, 2], MaxDepth=3, MaxOps=4, SupKind="small", Bug="none")
-        conf = dict(NTasks=1, Types=["A", "A2", "B"], Vals=[1, 2], MaxDepth=4, MaxOps=5, SupKind="tiny", Bug="none")
+        mc = dict(NTasks=1, Types=["A", "A2", "B"], Vals=[1, 2], MaxDepth=3, MaxOps=4, SupKind="small", Prep=False, Bug="none")
+        conf = dict(NTasks=1, Types=["A", "A2", "B"], Vals=[1, 2], MaxDepth=4, MaxOps=5, SupKind="tiny", Prep=False, Bug="none")
         types = ("A", "A2", "B")
     rep.extra["constants"] = dict(model=mc, conformance=conf)
     leg_m(rep, work, SPEC, f"mc_{tier}", cfg_text(mc, spec="Spec", invariants=INVS, properties=PROPS),
           expect_actions=ACTIONS, timeout=3000)
     if tier == "thorough":
-        small = dict(NTasks=1, Types=["A", "B"], Vals=[1, 2], MaxDepth=2, MaxOps=3, SupKind="tiny")
+        small = dict(NTasks=1, Types=["A", "B"], Vals=[1, 2], MaxDepth=2, MaxOps=3, SupKind="tiny", Prep=False)
         leg_mutant(rep, work, SPEC, "mutant_first_wins", cfg_text(dict(small, Bug="first_wins"), invariants=INVS),
                    ["LexicalLookup"])
         leg_mutant(rep, work, SPEC, "mutant_no_restore",
                    cfg_text(dict(small, Bug="no_restore"), spec="Spec", invariants=INVS, properties=PROPS),
                    ["LexicalLookup", "Restored"])
     leg_r(rep, work, SPEC, f"conf_{tier}", cfg_text(conf, invariants=INVS), lambda: ScopesDriver(types), world=True)
+    # block objects prepared in one place and entered in another (Prepare / EnterPrepared / ReEnter): what is visible inside
+    # is the entering place's state plus what the block supplies
+    prep = dict(NTasks=1, Types=["A", "B"], Vals=[1, 2], MaxDepth=2 if tier == "quick" else 3, MaxOps=4 if tier == "quick" else 5,
+                SupKind="tiny", Prep=True, Bug="none")
+    leg_m(rep, work, SPEC, f"prep_mc_{tier}", cfg_text(prep, spec="Spec", invariants=INVS, properties=PROPS),
+          expect_actions=["Prepare", "EnterPrepared", "ReEnter"], timeout=3000)
+    if tier == "thorough":
+        leg_mutant(rep, work, SPEC, "mutant_bound_where_made", cfg_text(dict(prep, MaxDepth=2, MaxOps=4, Bug="bound_where_made"),
+                                                                         invariants=INVS), ["LexicalLookup"])
+    leg_r(rep, work, SPEC, f"prep_conf_{tier}", cfg_text(prep, invariants=INVS), lambda: ScopesDriver(("A", "B")), world=True)
     # state yielded by SEVERAL disposables of one scope (later declared wins, whatever the order in which they finished
     # entering): ScopeLife.tla's DisposableStateVisible, replayed here on two and three disposables
     from props.scopelife_common import ScopeLifeDriver
